@@ -25,7 +25,7 @@ MANIFEST = dict(
          "link or an independent copy as the mounts allow, and distinct sources never share a destination (invariant: "
          "all destinations so far are in the shared clashes_to_avoid set and pairwise distinct); C33_ff_contract — the "
          "model of fileformats' naming/clash-counter algorithm (single-path file-sets) meets the contract; C33_total / "
-         "C33_full — with that model, an empty workflow directory and existing sources, collection never fails "
+         "C33_full — with that model and existing sources, whatever the workflow directory already holds, collection never fails "
          "(pigeonhole on the injective clash-counter names). Tie: copyfile_workflow / copy_nested_files are run on real "
          "temp files (directly and through real workflows under the debug worker) and the model and the executable spec "
          "are evaluated on the same cases inside Coq.",
@@ -61,7 +61,8 @@ RULE = ("nested list/tuple/dict values (depth <= 3) over real temp files and dir
         "workflows; non-trivial = at least two file leaves sharing a name from different sources, or a file-set "
         "occurring in two places")
 
-NAMES = ["f.txt", "f.txt", "f.txt", "g.txt", "f", "f (1).txt", ".hid", "a.b.c", "x.tar.gz", "d", "d.x", "f (1)"]
+NAMES = ["f.txt", "f.txt", "f.txt", "g.txt", "f", "f (1).txt", ".hid", "a.b.c", "x.tar.gz", "d", "d.x", "f (1)",
+         "_job.pklz"]
 DIRS = ["d1", "d2", "d3", "d4"]
 
 
@@ -164,6 +165,10 @@ class Sandbox:
             else:
                 out.append((self.cpath(q), self.ino(q), self.content(q)))
         return out
+
+    def symlinks(self):
+        """Canonical paths of the destination's entries that are symbolic links."""
+        return [self.cpath(q) for q in self.dest_entries() if os.path.islink(q)]
 
     def modify_sources(self, leaves):
         """Overwrite, in place, every source that is a leaf with a marker naming it."""
@@ -394,31 +399,39 @@ Definition fs_matches (dest : string) (fs : fsT) (s : snap) : bool :=
 Definition write_all (fs : fsT) (l : list fileset) : fsT := fold_left (fun fs s => write fs (snd s) (marker s)) l fs.
 Definition contents_match (fs : fsT) (o : obs) : bool :=
   forallb (fun x => ostr_eqb (read fs (fst x)) (Some (snd x))) o.
+(* destinations the model created as symbolic links, in the order of creation *)
+Definition sym_dsts (lg : list log_entry) : list path :=
+  map (fun e => snd (snd (fst e))) (filter (fun e => way_eqb (snd e) Sym) lg).
+Fixpoint insert_path (p : path) (l : list path) : list path :=
+  match l with
+  | [] => [p]
+  | q :: r => if String.leb (snd p) (snd q) then p :: l else q :: insert_path p r
+  end.
+Definition sort_paths (l : list path) : list path := fold_right insert_path [] l.
 Inductive oerr := OExists | OUnsat | OOther.
 Definition err_matches (e : err) (o : oerr) : bool :=
   match e, o with EExists, OExists | EUnsat, OUnsat => true | _, _ => false end.
 """
 
 COQ_C33 = COQ_COMMON + r"""
-Inductive ores := ORes (outs : list value) (c1 : snap) (c2 : obs) | OErr (e : oerr).
+Inductive ores := ORes (outs : list value) (c1 : snap) (c2 : obs) (syms : list path) | OErr (e : oerr).
 Definition case_t := (table * string * snap * list value * ores)%type.
 Definition all_leaves (vs : list value) : list fileset := flat_map leaves vs.
 Definition tie_ok (c : case_t) : bool :=
   let '(tab, dest, c0, fields, r) := c in
   match copyfile_workflow ff_copy tab dest fields (fs_of c0), r with
-  | Ok (outs, fs1, _), ORes outs' c1 c2 =>
+  | Ok (outs, fs1, _), ORes outs' c1 c2 syms =>
       list_eqb value_eqb (map fst outs) outs' && fs_matches dest fs1 c1
       && contents_match (write_all fs1 (all_leaves fields)) c2
+      && list_eqb path_eqb (sort_paths (sym_dsts (flat_map snd outs))) (sort_paths syms)
   | Err e, OErr o => err_matches e o
   | _, _ => false
   end.
-(* an error is excused only when an output file has the name of something already in the directory *)
-Definition name_taken (dest : string) (c0 : snap) (fields : list value) : bool :=
-  existsb (fun f => existsb (fun x => path_eqb (fst (fst x)) (dest, snd (snd f))) c0) (all_leaves fields).
 Definition spec_ok (c : case_t) : bool :=
   let '(tab, dest, c0, fields, r) := c in
   match r with
-  | ORes outs' c1 c2 => collected_b tab dest (strip c0) (strip c1) c2 fields outs'
+  | ORes outs' c1 c2 syms =>        (* "copied or hard-linked": never a symbolic link *)
+      collected_b tab dest (strip c0) (strip c1) c2 fields outs' && match syms with [] => true | _ => false end
   | OErr _ => false
   end.
 """
@@ -449,13 +462,10 @@ def run_direct(sb, values, table):
     return [getattr(res, n) for n in names]
 
 
-_WF_CACHE = {}
-
-
 def wf_class(n):
     """A real workflow with n Any-typed inputs returned unchanged through an identity node."""
-    if n in _WF_CACHE:
-        return _WF_CACHE[n]
+    # a fresh pair of classes per case: pydra keeps per-class caches of constructed workflows, and a case
+    # that failed half-way must not influence the next one
     from pydra.compose import python, workflow
     names = ["o%d" % i for i in range(n)]
     args = ", ".join("x%d: ty.Any" % i for i in range(n))
@@ -468,14 +478,15 @@ def wf_class(n):
     ident = python.define(outputs=names)(ns["Ident"])
     ns["Ident"] = ident
     wf = workflow.define(outputs=names)(ns["Wf"])
-    _WF_CACHE[n] = (wf, names)
-    return _WF_CACHE[n]
+    return wf, names
 
 
 def run_workflow(sb, values, table):
     from pydra.engine.submitter import Submitter
     from pydra.utils.mount_identifier import MountIndentifier as M
     import contextlib
+    from pydra.engine.workflow import Workflow
+    Workflow.clear_cache()   # pydra's process-wide cache of constructed workflows: cases must not share it
     wf, names = wf_class(len(values))
     task = wf(**{"x%d" % i: v for i, v in enumerate(values)})
     cm = M.patch_table(table) if table is not None else contextlib.nullcontext()
@@ -500,6 +511,7 @@ BOOKKEEPING = ("_job.pklz", "_result.pklz", "_task.pklz", "_error.pklz", "_retur
 def one_case(ctx, rng, base, mode, spec=None):
     """Generate (or rebuild from `spec`) one case, run it, return (coq_term, meta)."""
     sb = Sandbox(base)
+    os.chdir("/tmp")   # a failed run can leave the process inside a directory that is removed afterwards
     try:
         if spec is None:
             pool = gen_leaf_pool(rng, sb, rng.choice([2, 3, 4, 5, 6]))
@@ -507,9 +519,11 @@ def one_case(ctx, rng, base, mode, spec=None):
             values = [gen_value(rng, pool, rng.choice([0, 1, 2, 3])) for _ in range(nf)]
             table = gen_table(rng, sb)
             pre = []
-            if mode == "direct" and rng.random() < 0.12:
-                lv = [x for v in values for x in leaves_of(v)]
-                pre = [rng.choice([Path(str(x)).name for x in lv] + ["zz_unrelated"])] if lv else ["zz_unrelated"]
+            if mode == "direct" and rng.random() < 0.3:
+                # entries the directory already holds: named like an output, like a counter name, or unrelated
+                lv = [Path(str(x)).name for v in values for x in leaves_of(v)]
+                pre = sorted({rng.choice(lv + ["zz_unrelated", "f (1).txt", "f (2).txt", "_job.pklz"])
+                              for _ in range(rng.choice([1, 1, 2, 3]))})
         else:
             values = [rebuild(sb, d) for d in spec["values"]]
             table = [(str(sb.root) + p[len("/T"):], t) for p, t in spec["table"]] if spec.get("table") is not None else None
@@ -540,8 +554,8 @@ def one_case(ctx, rng, base, mode, spec=None):
             # (`_job.pklz` is there before collection) or are written after it (`_result.pklz`)
             hide = ("_result.pklz", "_error.pklz")
             pre = [q.name for q in sb.dest_entries() if q.name in ("_job.pklz", "_task.pklz")] if sb.dest else []
-            if "_job.pklz" in [Path(str(x)).name for x in leaves]:
-                pre = sorted(set(pre) | {"_job.pklz"})
+            if "_job.pklz" not in pre and sb.dest is not None:
+                pre = sorted(set(pre) | {"_job.pklz"})    # it was there when collection started
             sb.engine = {n: 900 + i for i, n in enumerate(pre)}
             c0 = c0 + [((sb.dest_canon, n), 900 + i, "ENGINE") for i, n in enumerate(pre)]
         names = [Path(str(x)).name for x in leaves]
@@ -549,35 +563,39 @@ def one_case(ctx, rng, base, mode, spec=None):
         nontrivial = (len(names) != len(set(names)) and len(src_set) > 1) or len(leaves) != len(set(map(str, leaves)))
         meta = {"mode": mode, "values": desc_in, "table": [[sb.canon(p), t] for p, t in table] if table is not None else None,
                 "pre": pre, "n_leaves": len(leaves), "nontrivial": bool(nontrivial),
-                "taken": bool(set(names) & (set(pre) | ({"_result.pklz"} if mode != "direct" else set())))}
+                "taken": mode != "direct" and "_result.pklz" in names}
         head = coqio.pair(enc_table(sb, table), coqio.string(sb.dest_canon), enc_snap(c0), coqio.lst(enc_in))
         if err is not None:
             meta.update(result="error", error=err, error_text=errtxt)
             term = coqio.pair(head[1:-1], "(OErr %s)" % oerr(err))
         else:
             c1 = sb.snapshot(hide=hide)
+            syms = sb.symlinks()
             sb.modify_sources(sorted(src_set))
             c2 = sb.snapshot(hide=hide)
             meta.update(result="ok", outputs=[describe(sb, v) for v in outs],
                         dest_listing=[x[0][1] for x in c1 if x[0][0] == sb.dest_canon])
-            term = coqio.pair(head[1:-1], "(ORes %s %s %s)" % (
-                coqio.lst([enc_value(sb, v) for v in outs]), enc_snap(c1), enc_obs2(c2)))
+            meta["symlinks"] = ["/".join(p) for p in syms]
+            term = coqio.pair(head[1:-1], "(ORes %s %s %s %s)" % (
+                coqio.lst([enc_value(sb, v) for v in outs]), enc_snap(c1), enc_obs2(c2),
+                coqio.lst([enc_path(p) for p in syms])))
         return term, meta
     finally:
+        os.chdir("/tmp")
         sb.close()
 
 
 def classify(meta):
-    """Known finding F33a: an output file has the name of an entry the workflow directory already holds
-    (or that the engine writes there afterwards)."""
+    """Known finding F33a: run through a real workflow, an output file is named `_result.pklz`, the file the
+    engine writes into the workflow directory after collection."""
     return "F33a" if meta.get("taken") else None
 
 
 def run(ctx):
     rng = ctx.rng
     base = tempfile.mkdtemp(prefix="verif-c33-", dir="/tmp")
-    n_direct = int(os.environ.get('C33_DIRECT', ctx.budget(260, 3000)))
-    n_wf = int(os.environ.get('C33_WF', ctx.budget(24, 260)))
+    n_direct = int(os.environ.get('C33_DIRECT', ctx.budget(170, 1800)))
+    n_wf = int(os.environ.get('C33_WF', ctx.budget(18, 180)))
     cases, metas = [], []
     try:
         for spec in ctx.corpus():
